@@ -27,6 +27,18 @@ CHECKS = {
          "Generated sequences of Records/Stats/Progress/Cont/End events and interleaved errors are framed by SelectObjectContentEventStream::into_byte_stream; the concatenated bytes must decode with aws-smithy-eventstream into the same number of messages in order, with string-typed :message-type/:event-type/:content-type (or :error-code/:error-message) headers and unchanged payloads (Stats/Progress XML re-read with an independent tokenizer). Full stack: the SDK's event receiver yields the same events in order and an error where the backend emitted one.",
          "Trusted: aws-smithy-eventstream frame decoder, xmlparser. The Rust SDK cannot surface :message-type error details (it only knows event/exception), so code/message of errors are asserted at frame level only.",
          "DESIGN.md §4 C15"),
+ "C07": ("proptest-driven search over (request kind x operation x service configuration); model-based oracle: the ordered event log of provider, access hooks, route and backend must equal the log predicted by a model of the documented order",
+         "Requests of 11 kinds (anonymous; valid V4 header/presigned, V2 header/presigned; bad signature; unknown key; duplicated / malformed Authorization) built from SDK-captured requests for all reachable operations or for a custom route, against services with provider none/keys/denying, access hook none/allow/deny/deny-by-op/deny-in-typed-hook/require-credentials, route none/matching/overriding/non-matching, host parser on/off: the recorded sequence provider-lookup -> access.check -> typed hook -> backend (or route.check_access -> route.call) with the verified identity must equal the model's; denials are the response's error and end the log; invalid requests produce no hook/backend events; without provider a presented signature is refused.",
+         "Trusted: reference signers for validity by construction, the harness' recording hooks generated from the S3/S3Access traits. V4 POST forms are covered by C10. Without provider, anonymous behaviour is not asserted.",
+         "DESIGN.md §4 C07"),
+ "C11": ("proptest-driven search; differential verdict oracle against a reference SigV2 signer/verifier written from the AWS V2 document (validated on six documentation examples); single-component mutations; expiry relative to the real clock",
+         "Requests signed by the reference V2 signer (header and presigned forms; sub-resources and response-* overrides, other query keys, x-amz-* headers incl. repeated names and edge whitespace, Date vs x-amz-date, Content-MD5/Type, path-style and virtual-hosted-style with a host parser), honest or with one mutation (method, MD5, type, date/expires, amz header value/added/removed, path, sub-resource value/added/removed, signature, access key): the adapter authenticates iff the reference verifier accepts and (presigned) now <= Expires; refused requests reach no backend.",
+         "Trusted: reference V2 signer (documentation examples), system clock with a 30 s band around Expires. Sub-resources newer than the V2 document are not asserted.",
+         "DESIGN.md §4 C11"),
+ "C16": ("proptest-driven search with a unique high-entropy secret per case under a TRACE-level capturing tracing subscriber; substring oracle (secret, hex, base64, every 12-byte window) over trace, response and renderings",
+         "Every request kind of C05-C11 (valid, bad signature, unknown key, expired, malformed, anonymous; signed bodies; chunk-signed uploads incl. a corrupted chunk) x access configurations x backend error, each with a fresh 40-character secret: neither the secret nor its hex/base64 forms nor any 12-byte window of it may occur in the captured TRACE output (all events, span fields, span lifecycle), the response head/body/trailers or any error; Debug/pretty-Debug/serde renderings of SecretKey, Credentials, SimpleAuth, S3Request are checked the same way.",
+         "Trusted: tracing-subscriber's fmt layer renders every field; a planted needle is found at start-up. Zeroisation is not observable and not claimed.",
+         "DESIGN.md §4 C16"),
  "C12": ("exhaustive enumeration of short bucket names + proptest-driven search over (bucket, key, percent-encoding spelling, host value, host configuration) with metamorphic path-style == virtual-hosted-style relation and verbatim-key oracle at a recording backend",
          "All 55 987 strings over {a,1,-,.,A,_} up to length 6 (thorough: 335 923 up to 7) plus padded 61-64 byte variants against naming predicates written from the S3 rules; generated requests in both addressing styles must show the backend the same bucket and exactly the client's key (any UTF-8, random escaping), keys <=1024 bytes accepted and longer ones refused with KeyTooLongError; IP/socket hosts are path-style; MultiDomain::new refuses invalid/overlapping lists and resolves hosts against their own domain.",
          "Trusted: harness naming predicates (self-tested on the documentation examples), RFC 3986 percent-encoder. Don't-cares: names between core-invalid and complete-valid, host-name case, string-but-not-label suffix domains.",
